@@ -15,7 +15,8 @@ LEVEL_NOTE = 'trusted: numpy array comparison; the oracle is the other configura
 DESIGN_REF = 'DESIGN.md section 3 C06'
 LEVEL = 'exploration'
 RULE = ('Cases: (circuit, delays with 1-4 datasets, stimulus, capacities) x the pair kinds a-h of DESIGN.md C06. Non-trivial iff the two configurations of at least '
-        'one pair differ in memory size or operation count (i.e. the option had an effect). Distinct = digest of all case fields.')
+        'one pair differ in memory size or operation count (i.e. the option had an effect). Distinct = digest of all case fields.'
+        ' Also: a restricted propagation followed by a full one on the same simulator (both paths), capture exactly at a transition time, primary-input rows after s_ppo_to_ppi, 49 and 70 lanes.')
 ASSUMPTIONS = ['the strip_forks pair uses one uniform capacity (a stripped branch inherits its stem\'s capacity, so per-line capacities legitimately change overflow behaviour)',
                'sd = 0 (no random capture) and delay-selection modes 0 and 1 only, as the property names them',
                'strip_forks pairs zero the delays of lines that feed forks in both runs (the documented precondition)']
